@@ -69,6 +69,7 @@ type Exec struct {
 	rootInfo             *rootInfo
 	skolems              []*smt.Term
 	projMemo             map[[2]int]*smt.Term
+	keepHyp              map[int]bool
 	deadline             time.Time
 	exprTypes            map[Expr]types.Type
 	oldSet               map[int]bool
@@ -562,7 +563,12 @@ func (x *Exec) execLoopInvariant(fr *Frame, l *loop, spec *LoopSpec, entry []*Ed
 	hdrReach := x.b.Fresh(fmt.Sprintf("reach_loop%d", l.ordinal), "Bool")
 	// being inside the loop implies having entered it: the path facts that
 	// guard the loop entry hold in every iteration
-	x.axiom(x.b.Implies(hdrReach, reachIn))
+	link := x.b.Implies(hdrReach, reachIn)
+	x.axiom(link)
+	if x.keepHyp == nil {
+		x.keepHyp = map[int]bool{}
+	}
+	x.keepHyp[link.ID] = true
 	// header phis are havocked by execBlock via a havoc edge
 	hedge := &Edge{from: nil, to: l.header, cond: hdrReach, st: st, env: layer}
 	// evaluate invariants as assumptions once phis exist: execBlock calls back.
